@@ -5,8 +5,10 @@ CONSTANTS
   NW = 2
   NT = 5
   Observe = TRUE
-  ObserveFrom = 2
+  ObserveFrom = 3
   TrackDist = TRUE
+  TrackOperand = FALSE
+  AdoptLists = FALSE
   CacheChecksCount = TRUE
 INVARIANT CacheFresh
 INVARIANT GraphAgrees
